@@ -124,10 +124,35 @@ def routing_scenario(rng):
     return L
 
 
+def slow_provider_scenario(rng):
+    """a provider that has stopped reading for a while: its 10-slot channel fills up with actuation requests; the
+    next request for it has to wait for room (the provider reads one message when nothing else can move) - it may
+    not be dropped, and a batch that also names a healthy provider's actuator stays all-or-nothing"""
+    from .. import enc as E
+    L = [[H.PERM, 0] + E.s(H.ALL_SCOPE), [H.PERM, 0] + E.s(H.ALL_SCOPE)]
+    for i in range(3):
+        L.append([H.ADD, 0] + E.s("Vehicle.L.Act%d" % i) + [4, rng.randrange(3), 2, 0, 0, 0])
+    slow_first = rng.random() < 0.5
+    L.append([H.LPROV, 0, 1, 3, 0])                            # the slow provider: actuator 0 (by id)
+    L.append([H.LPROV, 1, 1, 3, 1] if rng.random() < 0.5 else [H.PROVIDE, 1, 1, 1])   # the healthy one: actuator 1
+    L.append([H.DUMP])
+    k = rng.choice([9, 10, 10, 10, 11, 12])
+    for j in range(k):
+        L.append([H.ACTUATE, 0, 0, E.I32, j])                  # unread: they pile up in the provider's channel
+    order = [(1, 100), (0, 200)] if not slow_first else [(0, 200), (1, 100)]
+    L.append([H.BATCH, 0, 2] + sum(([i, E.I32, v] for i, v in order), []))
+    L.append([H.DUMP])
+    L.append([H.ACTUATE, 0, 0, E.I32, 300])
+    L.append([H.BATCH, 0, 2, 1, E.I32, 101, 0, E.I32, 201])
+    L.append([H.DUMP])
+    return L
+
+
 def generate(rng, tier, n=None, **kw):
     cases = B.generate(rng, tier, weights=WEIGHTS, n=n, **GEN_KW)
     k = 60 if tier == "quick" else 1200
-    return cases + [("route%d" % i, routing_scenario(rng)) for i in range(k)]
+    return cases + [("route%d" % i, routing_scenario(rng)) for i in range(k)] + \
+        [("slow%d" % i, slow_provider_scenario(rng)) for i in range(12 if tier == "quick" else 100)]
 
 
 GEN_KW = {}
